@@ -87,8 +87,11 @@ import vf
 vf.REPO_DIR = REPO
 import vf.fk_witness as W
 w = %r
+if w.get("decimal_context"):
+    import decimal
+    decimal.setcontext(decimal.Context(prec=6, rounding=decimal.ROUND_DOWN))
 try:
-    r = W.run_witness(w)
+    r = W.run_chart_witness(w) if w.get("chart") else W.run_witness(w)
 except Exception as e:
     import traceback; traceback.print_exc()
     r = "raised %%s: %%s" %% (type(e).__name__, e)
@@ -178,7 +181,60 @@ def witnesses(timeout=60):
             return [n0, n1, t1, t2]
         add("D:extreme tempo ratios, R=%d" % R, d_, 3,
             lambda n0, n1, t1, t2, R=R: {"R": R, "map": [(0, n0), (t1, n1), (t2, n0 + 7)], "queries": [0, t1 - 1, t1, t1 + 1, t2 - 1, t2, t2 + 1, t2 + 5]})
+    for R in (192, 480):
+        # E: the tempo in force restated (same BPM again) at ticks whose time is not a whole microsecond
+        def e_(s, R=R):
+            n0, t1, t2 = I("n0"), I("t1"), I("t2")
+            s.add(n0 >= 20000, n0 <= 400000, t1 >= 1, t1 <= 5000, t2 > t1, t2 <= 10000)
+            s.add((6 * 10**10 * t1) % (n0 * R) != 0, (6 * 10**10 * (t2 - t1)) % (n0 * R) != 0)
+            return [n0, t1, t2]
+        add("E:tempo restated at ticks off the microsecond grid, R=%d" % R, e_, 3,
+            lambda n0, t1, t2, R=R: {"R": R, "map": [(0, n0), (t1, n0), (t2, n0), (t2 + t1, n0 + 1)],
+                                     "queries": [0, t1 - 1, t1, t1 + 1, t2, t2 + 1, t2 + t1, t2 + t1 + 7, 3 * t2]})
     return rows, ws
+
+
+def run_chart_witness(w):
+    """The witness as a whole chart: events of every kind at the witness ticks, in two tracks; every stored
+    timestamp must be the un-hinted query of the chart's own tempo map for its tick (C11/C12: equal ticks
+    have identical timestamps in every track) and satisfy the C01 bound."""
+    import io
+    import logging
+    import chartparse.chart as C
+    R, tb = w["R"], w["map"]
+    qs = sorted(set(q for q in w["queries"] if q >= 0 and _exact_us(tb, R, q)[0] < 10**12))[:12]
+    lines = ["[Song]", "{", "  Resolution = %d" % R, "}", "[SyncTrack]", "{", "  0 = TS 4"] + ["  %d = B %d" % (t, n) for (t, n) in tb] + \
+            ["  %d = TS 3 3" % q for q in qs[1:3]] + ["}", "[Events]", "{"] + ['  %d = E "section s%d"' % (q, i) for i, q in enumerate(qs)] + ["}"]
+    for name in ("ExpertSingle", "HardDrums"):
+        lines += ["[%s]" % name, "{"] + ["  %d = N %d %d" % (q, i % 5, (qs[i + 1] - q) if i + 1 < len(qs) else 0) for i, q in enumerate(qs)] + \
+                 ["  %d = S 2 1" % q for q in qs[:2]] + ["  %d = E solo" % qs[-1], "}"]
+    logging.disable(logging.CRITICAL)
+    try:
+        chart = C.Chart.from_file(io.StringIO("\n".join(lines) + "\n"))
+    finally:
+        logging.disable(logging.NOTSET)
+    be = chart.sync_track.bpm_events
+
+    def us_(ts):
+        return (ts.days * 86400 + ts.seconds) * 10**6 + ts.microseconds
+    evs = [(e.tick, e.timestamp, type(e).__name__) for e in chart.sync_track.time_signature_events]
+    evs += [(e.tick, e.timestamp, type(e).__name__) for e in chart.global_events_track.section_events]
+    for dd in chart.instrument_tracks.values():
+        for t in dd.values():
+            evs += [(e.tick, e.timestamp, "NoteEvent") for e in t.note_events] + [(e.end_tick, e.end_timestamp, "NoteEvent.end") for e in t.note_events]
+            evs += [(e.tick, e.timestamp, type(e).__name__) for e in t.star_power_events + t.track_events]
+    if len(evs) < 4 * len(qs):
+        return "chart witness: events missing (%d)" % len(evs)
+    for tick, ts, kind in evs:
+        e, z = _exact_us(tb, R, tick)
+        if e >= 10**12:
+            continue
+        q = us_(be.timestamp_at_tick_no_optimize_return(tick))
+        if us_(ts) != q:
+            return "C11/C12: %s at tick %d stored at %d us, the chart's tempo map says %d us" % (kind, tick, us_(ts), q)
+        if abs(q - e) > max(z, 1) * B_US:
+            return "C01: %s at tick %d -> %d us, exact %s us" % (kind, tick, q, float(e))
+    return None
 
 
 def check(timeout=120, **kw):
@@ -195,6 +251,31 @@ def check(timeout=120, **kw):
         if r:
             bad = (w, r)
             break
+        try:
+            r = run_chart_witness(w)
+        except Exception as e:  # noqa: BLE001
+            r = "chart witness raised %s: %s" % (type(e).__name__, e)
+        if r:
+            bad = (dict(w, chart=True), r)
+            break
+    if bad is None:
+        # the same witnesses in a host application that has changed process-wide numeric settings the
+        # library does not own (thread-local decimal context, float repr style is fixed): times must not move
+        import decimal
+        saved = decimal.getcontext().copy()
+        try:
+            decimal.setcontext(decimal.Context(prec=6, rounding=decimal.ROUND_DOWN))
+            for w in ws[::3]:
+                n += 1
+                try:
+                    r = run_witness(w)
+                except Exception as e:  # noqa: BLE001
+                    r = "raised %s: %s" % (type(e).__name__, e)
+                if r:
+                    bad = (dict(w, decimal_context="prec=6,ROUND_DOWN"), "under decimal context prec=6: " + r)
+                    break
+        finally:
+            decimal.setcontext(saved)
     res = {"queries": len(rows) + n, "nontrivial": sum(1 for r in rows if r["got"] == "sat") + n, "validated": n,
            "solver_s": round(sum(r["s"] for r in rows), 2), "query_log": rows, "replay_wall_s": round(time.time() - t0, 2),
            "samples": [{k: w[k] for k in ("region", "R", "map")} for w in ws[:3]]}
